@@ -83,6 +83,20 @@ func registerCompounds() {
 				return []Out{OutOf("close", asset.SnapshotsAsClosings(in), ident)}
 			}}
 		}})
+	// strategy.ComputeWithOutcome over catalogued strategies: outputs actions and the outcome stream (property C18: the
+	// relative gain does not depend on the currency unit)
+	for _, sn := range []string{"strategy.BuyAndHoldStrategy", "strategy/momentum.RsiStrategy", "strategy/compound.MacdRsiStrategy", "strategy/trend.AroonStrategy"} {
+		sp := findPipe(sn)
+		register(Pipe{Name: "aux.Outcome(" + sn[strings.LastIndex(sn, ".")+1:] + ")", Class: "aux", Inputs: snapIn, Params: sp.Params, Default: sp.Default,
+			Valid: sp.Valid,
+			Make: func(cfg []int) Inst {
+				st := sp.Make(cfg).Strat.(strategy.Strategy)
+				return Inst{ComputeS: func(in <-chan *asset.Snapshot) []Out {
+					a, o := strategy.ComputeWithOutcome(st, in)
+					return []Out{OutOf("actions", a, actF), OutOf("outcome", o, ident)}
+				}}
+			}})
+	}
 	and := func(s []strategy.Strategy) strategy.Strategy { return strategy.NewAndStrategy("and", s...) }
 	or := func(s []strategy.Strategy) strategy.Strategy { return strategy.NewOrStrategy("or", s...) }
 	maj := func(s []strategy.Strategy) strategy.Strategy { return strategy.NewMajorityStrategyWith("majority", s) }
